@@ -198,6 +198,19 @@ class Interp:
                     break
                 except _Continue:
                     continue
+        elif isinstance(s, ast.Delete):
+            for t in s.targets:
+                if isinstance(t, ast.Subscript):
+                    obj = self.ev(t.value, L)
+                    k = self.ev(t.slice, L)
+                    try:
+                        del obj[k]
+                    except (KeyError, IndexError, TypeError):
+                        self.unsupported(s, "del of a missing key")
+                elif isinstance(t, ast.Name):
+                    L.pop(t.id, None)
+                else:
+                    self.unsupported(s)
         elif isinstance(s, ast.Continue):
             raise _Continue()
         elif isinstance(s, ast.Break):
@@ -448,9 +461,9 @@ class Interp:
                 if r is not NotImplemented:
                     return r
             self.unsupported(node, f"attribute {attr} not modelled on {obj.tag}")
-        if isinstance(obj, dict) and attr in ("items", "keys", "values", "get"):
+        if isinstance(obj, dict) and attr in _DICT_METHODS:
             return ("__bound__", obj, attr)
-        if isinstance(obj, list) and attr in ("append", "extend", "index", "count"):
+        if isinstance(obj, list) and attr in _LIST_METHODS:
             return ("__bound__", obj, attr)
         if isinstance(obj, str) and attr in _STR_METHODS:
             return ("__bound__", obj, attr)
@@ -507,6 +520,11 @@ class Interp:
             if isinstance(m, tuple) and m and m[0] == "__bound__":
                 _, o, attr = m
                 if isinstance(o, dict):
+                    if attr in ("update", "pop", "copy", "setdefault", "clear"):
+                        try:
+                            return getattr(o, attr)(*a)
+                        except Exception:
+                            self.unsupported(n)
                     if attr == "items":
                         return list(o.items())
                     if attr == "keys":
@@ -526,6 +544,11 @@ class Interp:
                         return sum(1 for y in o if y is a[0] or (_plain(y) and y == a[0]))
                     if attr == "index":
                         return o.index(a[0])
+                    if attr in ("insert", "clear", "pop", "reverse", "copy", "remove"):
+                        try:
+                            return getattr(o, attr)(*a)
+                        except (IndexError, ValueError):
+                            raise Raised("IndexError" if attr == "pop" else "ValueError", n)
                 if isinstance(o, str):
                     if attr not in _STR_METHODS:
                         self.unsupported(n, f"str method {attr}")
@@ -553,6 +576,8 @@ class Interp:
         self.unsupported(node, "isinstance against an unmodelled class")
 
 
+_DICT_METHODS = ("items", "keys", "values", "get", "update", "pop", "copy", "setdefault", "clear")
+_LIST_METHODS = ("append", "extend", "index", "count", "insert", "clear", "pop", "reverse", "copy", "remove")
 _STR_METHODS = ("count", "startswith", "endswith", "isdigit", "isnumeric", "join", "split",
                 "replace", "strip", "lstrip", "rstrip", "lower", "upper", "index", "find")
 
